@@ -5,7 +5,8 @@ PROP = {'counts': {'quick': 400, 'thorough': 16000},
          'with the extracted Memtable model and with an independent sort-based oracle; every 10th case is '
          'concurrent: one writer, three readers doing iteration/Get, each observation checked (sorted, '
          'nothing missing that was inserted before it began, nothing invented); non-trivial = a key with '
-         'several versions and >= 3 inserts',
+         'several versions and >= 3 inserts'
+         ' Added later: held iterators (hnew/hfirst/hseek/hnext/hdrain against Memtable.h_*; theorems C18_held_*), the memtable pool (mode=pool against MemPool.v; C18_pool_get_last_write), and buffers handed to Put/Delete are scribbled over after the call.',
  'assumptions': ['Go atomics are sequentially consistent (skip list next pointers are atomic.Pointer)'],
  'partial': 'concurrent clause: proved on the store-by-store model (SkipConc.v, see Props/C18.v for what is '
             'complete); real interleavings are sampled'}
